@@ -114,14 +114,22 @@ def emit_limit_filters(R):
     outs, fns = [], []
     for fn, expect in (("selectLowerSet", 3), ("selectGeneralSet", 1)):
         (p,) = X.cut(IMC, r'template<bool\s+check_limits>\s*MultiIndexSet\s+%s\s*\([^{]*\)' % fn, text)
-        ms = list(re.finditer(r'if\s*\(\s*check_limits\s*\)\s*for\s*\([^;]*;[^;]*;[^)]*\)\s*if\s*\((?:[^()]|\([^()]*\))*\)\s*return\s+false\s*;', p.body))
-        if len(ms) != expect:
-            raise X.ExtractionBreak("%s: expected %d limit tests in the criteria lambdas, found %d" % (fn, expect, len(ms)))
-        for k, m in enumerate(ms):
-            stmt = m.group(0)
-            stmt = R.sub("R3-template-param", r'\bcheck_limits\b', 'true', stmt)
-            line = p.line + (p.header + p.body[:m.start()]).count('\n')
+        # the criterion lambdas [&](std::vector<int> const &index)->bool{...}; each must start its decision with the limit test
+        lams = list(re.finditer(r'\[&\]\s*\(\s*std::vector<int>\s+const\s*&\s*index\s*\)\s*->\s*bool\s*(?=\{)', p.body))
+        if len(lams) != expect:
+            raise X.ExtractionBreak("%s: expected %d criterion lambdas, found %d" % (fn, expect, len(lams)))
+        for k, lm in enumerate(lams):
+            le = X.match_close(p.body, lm.end())
+            lbody = p.body[lm.end():le + 1]
+            m = re.search(r'if\s*\(\s*check_limits\s*\)\s*for\s*\([^;]*;[^;]*;[^)]*\)\s*if\s*\((?:[^()]|\([^()]*\))*\)\s*return\s+false\s*;', lbody)
             name = "limit_filter_%s_%d" % (fn, k)
+            if m:
+                stmt = R.sub("R3-template-param", r'\bcheck_limits\b', 'true', m.group(0))
+                line = p.line + (p.header + p.body[:lm.end() + m.start()]).count('\n')
+            else:       # no limit test in this criterion: under check_limits it accepts whatever the weight test accepts
+                stmt = "/* this criterion lambda contains no `if (check_limits) ... return false;` statement */"
+                line = p.line + (p.header + p.body[:lm.start()]).count('\n')
+                R.counts["missing-limit-test"] = R.counts.get("missing-limit-test", 0) + 1
             outs.append('#line %d "%s"\nbool %s(size_t num_dimensions, const int *index, const int *level_limits){ %s return true; }' % (line, X.REPO + "/" + p.rel, name, stmt))
             fns.append({"name": "%s<true> criteria lambda #%d: limit test" % (fn, k), "file": p.rel, "line": line, "loops": 1, "cname": name})
     # full tensor clamp of selectTensors
